@@ -136,7 +136,7 @@ pub fn file_id(a: &EmmyLuaAnalysis, name: &str) -> Option<FileId> {
     a.get_file_id(&uri_of(name))
 }
 
-pub const NAME_PROBES: &[&str] = &["G", "H", "K", "gf", "gh", "Foo", "Bar", "Baz", "En", "Color", "a", "b", "c", "m", "n", "A", "B"];
+pub const NAME_PROBES: &[&str] = &["G", "H", "K", "gf", "gh", "Foo", "Bar", "Baz", "En", "Color", "Al", "Id", "a", "b", "c", "m", "n", "A", "B"];
 
 /// dump used by the history checks C08-C10 (mismatch explanations stripped, see `DumpOpts`)
 pub fn dump_of(a: &EmmyLuaAnalysis, dead: &[(FileId, String)]) -> Dump {
@@ -260,6 +260,13 @@ pub fn open_sigs(prop: &str) -> Vec<String> {
 /// Candidate failures from comparing a reference dump with the dump under judgement: one per differing
 /// index-level section; if none of those differs, the first differing computed section.
 pub fn dump_candidates(prefix: &str, reference: &Dump, got: &Dump) -> Vec<(String, String)> {
+    dump_candidates_touched(prefix, reference, got, None)
+}
+
+/// `touched`: names of the files the history re-submitted / edited (None = unknown).  A member that
+/// disappears although its own file was not touched was attached across files (its owner is resolved
+/// through a declaration in a touched file) and was not re-attached.
+pub fn dump_candidates_touched(prefix: &str, reference: &Dump, got: &Dump, touched: Option<&[String]>) -> Vec<(String, String)> {
     let diffs = reference.diff(got);
     let mut out = vec![];
     let is_root = |d: &dump::Diff| dump::ROOT_SECTIONS.contains(&d.section.as_str());
@@ -295,7 +302,9 @@ pub fn dump_candidates(prefix: &str, reference: &Dump, got: &Dump) -> Vec<(Strin
     if any_root && diffs.iter().filter(|d| is_root(d)).all(dump::additions_or_type_only) && diffs.iter().filter(|d| is_root(d)).any(|d| d.only_right.len() > d.only_left.len()) {
         // at index level nothing disappeared or changed, facts were only added (computed sections follow
         // from them): the state under judgement has resolved more than the reference
-        return vec![(format!("{prefix}resubmit-resolves-more"), dump::render_diffs(&diffs, 10))];
+        // against the plain-resubmission control the extra facts are leftovers of the undone edit
+        let what = if prefix == "undo:" { "stale-additions" } else { "resubmit-resolves-more" };
+        return vec![(format!("{prefix}{what}"), dump::render_diffs(&diffs, 10))];
     }
     for d in &diffs {
         if !is_root(d) && (any_root || !out.is_empty()) {
@@ -317,6 +326,20 @@ pub fn dump_candidates(prefix: &str, reference: &Dump, got: &Dump) -> Vec<(Strin
             let one = vec![f];
             out.push((format!("{prefix}{}", dump::classify_with(&one, Some(reference))), dump::render_diffs(&one, 10)));
             continue;
+        }
+        if d.section == "member" && d.only_right.is_empty() {
+            if let Some(touched) = touched {
+                let file_of = |l: &String| l.split(" at ").nth(1).unwrap_or("").split('@').next().unwrap_or("").to_string();
+                if d.only_left.iter().all(|l| !touched.contains(&file_of(l))) {
+                    out.push((format!("{prefix}cross-file-member-lost"), dump::render_diffs(&[d.clone()], 10)));
+                    continue;
+                }
+                if d.only_left.iter().all(|l| touched.contains(&file_of(l))) {
+                    // the re-analysis of the member's own file no longer attaches it
+                    out.push((format!("{prefix}resubmit-resolves-less"), dump::render_diffs(&[d.clone()], 10)));
+                    continue;
+                }
+            }
         }
         let one = vec![d.clone()];
         if is_root(d) && d.section != "desc" && about_multi(d) {
